@@ -246,19 +246,21 @@ namespace awkward {
   const ContentPtr
   IndexedGenericBuilder::snapshot() const {
     Index64 index(index_.ptr(), 0, index_.length(), kernel::lib::cpu);
+    // array_ may itself be option-type (ByteMaskedArray, BitMaskedArray,
+    // UnmaskedArray): an indexed node must not contain one directly
     if (hasnull_) {
-      return std::make_shared<IndexedOptionArray64>(
+      return IndexedOptionArray64(
         Identities::none(),
         util::Parameters(),
         index,
-        array_);
+        array_).simplify_optiontype();
     }
     else {
-      return std::make_shared<IndexedArray64>(
+      return IndexedArray64(
         Identities::none(),
         util::Parameters(),
         index,
-        array_);
+        array_).simplify_optiontype();
     }
   }
 
@@ -297,14 +299,14 @@ namespace awkward {
     if (hasnull_) {
       return std::make_shared<IndexedOptionArray64>(
         Identities::none(),
-        array_.get()->content().get()->parameters(),
+        array_.get()->parameters(),
         index,
         array_.get()->content());
     }
     else {
       return std::make_shared<IndexedArray64>(
         Identities::none(),
-        array_.get()->content().get()->parameters(),
+        array_.get()->parameters(),
         index,
         array_.get()->content());
     }
@@ -345,14 +347,14 @@ namespace awkward {
     if (hasnull_) {
       return std::make_shared<IndexedOptionArray64>(
         Identities::none(),
-        array_.get()->content().get()->parameters(),
+        array_.get()->parameters(),
         index,
         array_.get()->content());
     }
     else {
       return std::make_shared<IndexedArray64>(
         Identities::none(),
-        array_.get()->content().get()->parameters(),
+        array_.get()->parameters(),
         index,
         array_.get()->content());
     }
@@ -393,14 +395,14 @@ namespace awkward {
     if (hasnull_) {
       return std::make_shared<IndexedOptionArray64>(
         Identities::none(),
-        array_.get()->content().get()->parameters(),
+        array_.get()->parameters(),
         index,
         array_.get()->content());
     }
     else {
       return std::make_shared<IndexedArray64>(
         Identities::none(),
-        array_.get()->content().get()->parameters(),
+        array_.get()->parameters(),
         index,
         array_.get()->content());
     }
@@ -443,7 +445,7 @@ namespace awkward {
     Index64 index(index_.ptr(), 0, index_.length(), kernel::lib::cpu);
     return std::make_shared<IndexedOptionArray64>(
       Identities::none(),
-      array_.get()->content().get()->parameters(),
+      array_.get()->parameters(),
       index,
       array_.get()->content());
   }
@@ -484,7 +486,7 @@ namespace awkward {
     Index64 index(index_.ptr(), 0, index_.length(), kernel::lib::cpu);
     return std::make_shared<IndexedOptionArray64>(
       Identities::none(),
-      array_.get()->content().get()->parameters(),
+      array_.get()->parameters(),
       index,
       array_.get()->content());
   }
